@@ -145,7 +145,7 @@ func init() {
 
 var floatGrid = []float64{0, math.Copysign(0, -1), 5e-324, -5e-324, 2.2250738585072014e-308, -2.2250738585072014e-308, 1, -1, 0.5, -0.5, 1.5, -1.5, 2.5, -2.5, 3, -3, 0.1,
 	9007199254740992, -9007199254740992, 9223372036854775808, -9223372036854775808, 9223372036854774784, -9223372036854774784, 9223372036854777856,
-	math.MaxFloat64, -math.MaxFloat64, 1e308, -1e308, 1e-308, 4611686018427387904.5, 0.49999999999999994, -0.49999999999999994, 4503599627370497.5, -4503599627370497.5, 1e19, -1e19, 123456.789}
+	math.MaxFloat64, -math.MaxFloat64, 1e308, -1e308, 1e-308, 4611686018427387904.5, 0.49999999999999994, -0.49999999999999994, 4503599627370497.5, -4503599627370497.5, 4503599627370497.0, -4503599627370499.0, 9007199254740991.0, -9007199254740991.0, 4503599627370495.5, 1e19, -1e19, 123456.789}
 
 func fclass(f float64) string {
 	switch {
